@@ -407,4 +407,20 @@ example :
                                 .get "grpc://a".toList true]).2 =
       [.none, .closed [{ id := 0 }], .none, .get "grpc://a".toList (.dialled 1)] := by decide
 
+/-! the message comparison of the correspondence: same field sequence ⇔ same message -/
+open Spec.Wire in
+example : canon "0801" = some [1, 0, 1] := by decide
+open Spec.Wire in
+/-- a non-minimal tag (88 00) and a non-minimal varint value (81 00) denote the same field -/
+example : sameMsg "88008100" "0801" = true := by decide
+open Spec.Wire in
+/-- altered, dropped, duplicated and reordered fields are different messages -/
+example : sameMsg "0801" "0802" = false ∧ sameMsg "08011002" "0801" = false ∧
+    sameMsg "0801" "08010801" = false ∧ sameMsg "08011002" "10020801" = false := by decide
+open Spec.Wire in
+/-- length-delimited payloads and groups are part of the value; bytes that are not wire format fall back to
+byte equality -/
+example : sameMsg "0a0161" "0a0162" = false ∧ canon "0b08010c" = some [1, 3, 1, 0, 1, 1, 4] ∧
+    canon "0b0801" = none ∧ sameMsg "ff" "ff" = true ∧ sameMsg "ff" "fe" = false := by decide
+
 end Fabio.Props.C16
